@@ -182,6 +182,11 @@ class Spec:
     def observables(self, est, cfg):
         return [m for m in self.methods if hasattr(est, m[0])]
 
+    def fragile_rows(self, est, Xb):
+        """Rows whose output is decided by a floating-point tie (and may
+        therefore legitimately differ between batch shapes by one ulp)."""
+        return numpy.zeros(Xb.shape[0], dtype=bool)
+
 
 def _binner(ch, kind):
     b = ch.weighted("w", [("tree", 3), ("kbins", 2), ("bins-str", 1)], "binner")
@@ -286,6 +291,22 @@ class SDecisionTreeLogReg(Spec):
             "min_samples_leaf": ch.integer("w", 1, 4, "msl"),
             "algo": ch.choice("w", ["auto", "none", "intercept_sort", "intercept_sort_always"], "algo"),
         }
+
+    def fragile_rows(self, est, Xb):
+        # fit_improve moves a node's intercept onto a training point: that
+        # point then sits exactly on the node's threshold (probability 0.5 up
+        # to an ulp) and which side it falls on depends on BLAS rounding.
+        mask = numpy.zeros(Xb.shape[0], dtype=bool)
+        stack = [est.tree_]
+        while stack:
+            node = stack.pop()
+            prob = node.estimator.predict_proba(Xb)[:, 1]
+            mask |= numpy.abs(prob - node.threshold) < 1e-7
+            mask |= numpy.abs(prob - 0.5) < 1e-7
+            for ch in (node.above, node.below):
+                if ch is not None:
+                    stack.append(ch)
+        return mask
 
     def build(self, cfg):
         return DecisionTreeLogisticRegression(
